@@ -1182,6 +1182,66 @@ def _pos(n):
     return (getattr(n, "lineno", 0), getattr(n, "col_offset", 0))
 
 
+_STRUCTURAL_BUILTINS = {"len", "sorted", "tuple", "list", "set", "frozenset", "dict", "min", "max", "sum", "any", "all", "enumerate", "zip", "reversed", "bool", "str", "repr"}
+
+
+def _structural_reads(value) -> Set[str]:
+    """names whose CONTENTS the expression reads (length, items, membership, iteration): these change when anything the name is handed to mutates it"""
+    out: Set[str] = set()
+
+    def base(e):
+        while isinstance(e, (ast.Attribute, ast.Subscript)):
+            e = e.value
+        return e.id if isinstance(e, ast.Name) else None
+    for n in ast.walk(value):
+        if isinstance(n, ast.Call) and isinstance(n.func, ast.Name) and n.func.id in _STRUCTURAL_BUILTINS:
+            for a in n.args:
+                b = base(a.value if isinstance(a, ast.Starred) else a)
+                if b:
+                    out.add(b)
+        elif isinstance(n, ast.Subscript):
+            b = base(n.value)
+            if b:
+                out.add(b)
+        elif isinstance(n, ast.Compare) and any(isinstance(o, (ast.In, ast.NotIn)) for o in n.ops):
+            for c in n.comparators:
+                b = base(c)
+                if b:
+                    out.add(b)
+        elif isinstance(n, ast.comprehension):
+            b = base(n.iter)
+            if b:
+                out.add(b)
+        elif isinstance(n, ast.Starred):
+            b = base(n.value)
+            if b:
+                out.add(b)
+    return out
+
+
+def _handed_over(fn) -> List[Tuple[Tuple[int, int], str]]:
+    """(position, name) for every name passed to (or used as the receiver of) a call that is not a consuming builtin: the callee may change its contents"""
+    out = []
+
+    def base(e):
+        while isinstance(e, (ast.Attribute, ast.Subscript)):
+            e = e.value
+        return e.id if isinstance(e, ast.Name) else None
+    for n in ast.walk(fn):
+        if isinstance(n, ast.Call):
+            if isinstance(n.func, ast.Name) and n.func.id in _PURE_BUILTINS:
+                continue
+            for a in list(n.args) + [k.value for k in n.keywords]:
+                b = base(a.value if isinstance(a, ast.Starred) else a)
+                if b:
+                    out.append((_pos(n), b))
+            if isinstance(n.func, ast.Attribute):
+                b = base(n.func.value)
+                if b:
+                    out.append((_pos(n), b))
+    return out
+
+
 def _inline_pure_temps(fn, keep: Set[str]) -> int:
     """Only for locals the reference tree does not have ("explaining variables"): `t = e` with `e` pure (names, attribute chains, constants, operators, a few
     builtins), `t` bound exactly once, every read of `t` later in the same block (at any depth), nothing `e` reads re-bound or mutated after the
@@ -1233,6 +1293,7 @@ def _inline_pure_temps(fn, keep: Set[str]) -> int:
             if isinstance(n, (ast.ListComp, ast.SetComp, ast.DictComp, ast.GeneratorExp)):
                 for g in n.generators:
                     comp_bound.update(x.id for x in ast.walk(g.target) if isinstance(x, ast.Name))
+        handed = _handed_over(fn)
         # mutations, by position
         mutated: List[Tuple[Tuple[int, int], str]] = []  # (position, base name or ".attr")
         for n in ast.walk(fn):
@@ -1287,6 +1348,10 @@ def _inline_pure_temps(fn, keep: Set[str]) -> int:
                         continue  # something the expression reads is re-bound after the assignment
                     if any(pos >= here and (what in bases or what in attrs) for pos, what in mutated):
                         continue
+                    sr_ = _structural_reads(st.value)
+                    last_use = max(_pos(u) for u in uses)
+                    if sr_ and any(here < pos <= last_use and what in sr_ for pos, what in handed):
+                        continue  # the contents it reads may be changed by a call made before the value is used
                     has_call = any(isinstance(m, (ast.Call, ast.ListComp, ast.SetComp, ast.DictComp)) for m in ast.walk(st.value))
                     if has_call:
                         # a freshly built object must only be read as a value: no attribute / item access on the temporary
@@ -1668,6 +1733,36 @@ def _restyle_candidates(fn):
                                 body_ = [ast.copy_location(ast.For(target=gq.target, iter=gq.iter, body=body_, orelse=[]), st)]
                             blk[i] = body_[0]
                         out.append(l_)
+                # M: `f(a, [E for v in S if c])` / `x = [E for v in S if c]`  ->  `acc = []` / `for v in S: if c: acc.append(E)` / `f(a, acc)`
+                comp_site = None
+                if isinstance(st, ast.Expr) and isinstance(st.value, ast.Call) and _simple(st.value.func) and not st.value.keywords:
+                    lcs = [a_ for a_ in st.value.args if isinstance(a_, ast.ListComp)]
+                    if len(lcs) == 1 and all(_simple(a_) for a_ in st.value.args if a_ is not lcs[0]):
+                        comp_site = ("arg", lcs[0])
+                elif isinstance(st, ast.Assign) and isinstance(st.value, ast.ListComp) and len(st.targets) == 1 and isinstance(st.targets[0], ast.Name):
+                    comp_site = ("assign", st.value)
+                if comp_site is not None and len(comp_site[1].generators) == 1 and not comp_site[1].generators[0].is_async \
+                        and not any(isinstance(m_, (ast.ListComp, ast.SetComp, ast.DictComp, ast.GeneratorExp, ast.Lambda)) for m_ in ast.walk(comp_site[1]) if m_ is not comp_site[1]):
+                    def m_unfold(blk=blk, i=i, st=st, comp_site=comp_site):
+                        kind_, lc = comp_site
+                        used = {m_.id for m_ in ast.walk(fn) if isinstance(m_, ast.Name)}
+                        if kind_ == "assign":
+                            acc = st.targets[0].id
+                        else:
+                            acc = next(c_ for c_ in ("acc_", "acc__", "acc___") if c_ not in used)
+                        gq = lc.generators[0]
+                        body_ = [ast.copy_location(ast.Expr(value=ast.Call(func=ast.Attribute(value=ast.Name(id=acc, ctx=ast.Load()), attr="append", ctx=ast.Load()),
+                                                                           args=[lc.elt], keywords=[])), st)]
+                        for cnd in reversed(gq.ifs):
+                            body_ = [ast.copy_location(ast.If(test=cnd, body=body_, orelse=[]), st)]
+                        loop_ = ast.copy_location(ast.For(target=gq.target, iter=gq.iter, body=body_, orelse=[]), st)
+                        init_ = ast.copy_location(ast.Assign(targets=[ast.Name(id=acc, ctx=ast.Store())], value=ast.List(elts=[], ctx=ast.Load())), st)
+                        if kind_ == "assign":
+                            blk[i:i + 1] = [init_, loop_]
+                        else:
+                            st.value.args = [ast.Name(id=acc, ctx=ast.Load()) if a_ is lc else a_ for a_ in st.value.args]
+                            blk[i:i + 1] = [init_, loop_, st]
+                    out.append(m_unfold)
                 # K1: `for i, x in enumerate(S, start=K)` -> `i = K` / `for x in S: ...; i += 1`
                 if isinstance(st, ast.For) and not st.orelse and isinstance(st.iter, ast.Call) and isinstance(st.iter.func, ast.Name) and st.iter.func.id == "enumerate" \
                         and isinstance(st.target, ast.Tuple) and len(st.target.elts) == 2 and isinstance(st.target.elts[0], ast.Name) and 1 <= len(st.iter.args) <= 2 \
@@ -1833,6 +1928,7 @@ class Normalizer:
                     r = _restyle_towards(fn, entry["skeleton"])
                     if r:
                         self.restyled += r
+                        self._locals(stem, qn, fn, entry)  # names introduced by a restyling are matched to the reference's by what they are bound to
                         self.folded += _fold_accumulators(fn, keep)
                         self.pure_temps += _inline_pure_temps(fn, keep)
                         self.temps += _inline_adjacent_temps(fn, keep)
